@@ -37,8 +37,8 @@ const (
 	xkRbrack
 	xkComma
 	xkDot
-	xkOp   // every operator / keyword of the fragment that needs no individual treatment by the OUTSIDE rule
-	xkIn   // IN
+	xkOp // every operator / keyword of the fragment that needs no individual treatment by the OUTSIDE rule
+	xkIn // IN
 	xkSelect
 	xkLitStart
 )
